@@ -1,7 +1,7 @@
 """C14 -- KeyedSet is a set of items identified by key."""
 import shutil
 
-from .. import common, pipeline, tla
+from .. import canary, common, pipeline, tla
 from .. import d_keyedset as D
 
 DEVS = ["from_iterable_drops_config"]
@@ -83,6 +83,7 @@ def main(tier):
                         rjobs.append((fl, typed, enforce, common.seed() * 1000 + w, 300 if thorough else 40, 60, 10, 2))
         r2 = pipeline.run_judged(_random, rjobs, "J_KeyedSet", replay_fn=_replay, key_fn=_key, nontrivial_fn=_nontrivial, chunk=25000)
         rep.mark("random")
+        pipeline.canaries(rep, "J_KeyedSet", r1["samples"] + r2["samples"], canary.keyedset, want=16)
         res = {"ante": {k: r1["ante"].get(k, 0) + r2["ante"].get(k, 0) for k in set(r1["ante"]) | set(r2["ante"])}}
         for clause, (replay, detail) in r1["bad"] + r2["bad"]:
             rep.violation(clause, replay, detail)
